@@ -130,6 +130,9 @@ class Secular:
         self.secular_reversible = reversible
         
         if use_data:
+            if self.as_operators:
+                # the data come into being by conversion from the operators
+                self.convert_2_tensor()
             if self.data is None:
                 raise Exception("Cannot use data when data is None")
             self.secular_data = True
